@@ -63,6 +63,13 @@ func (s colorizeToolS) wrapColorAndBg(text string, clr, bg color.Color) string {
 	if bg != clrNone {
 		s.echoBgColor(&sb, bg)
 	}
+	if clr == clrNone { // no foreground colour: color.WrapColorTo would emit the malformed sequence ESC[-1m
+		sb.WriteString(text)
+		if bg != clrNone {
+			s.echoResetColor(&sb)
+		}
+		return sb.String()
+	}
 	color.WrapColorTo(&sb, clr, text)
 	return sb.String()
 }
